@@ -98,8 +98,16 @@ type FuncContract struct {
 	Proves       []*Clause
 	Token        *Expr
 	Defines      *Expr
+	Measure      *Measure
 	CallsOnly    []string
 	HasCallsOnly bool
+}
+
+type Measure struct {
+	Grows, Shrinks *Expr
+	Label          string
+	Props          []string
+	Src            string
 }
 
 type GhostSet struct {
@@ -287,6 +295,36 @@ func (fc *FuncContract) addClause(word, rest string, ln int) error {
 			return err
 		}
 		fc.Sets = append(fc.Sets, GhostSet{Ghost: strings.TrimSpace(rest[:i]), Expr: e})
+	case "measure":
+		// measure [tags] grows <expr> then shrinks <expr>   (either part optional)
+		me := &Measure{Src: rest}
+		if strings.HasPrefix(rest, "[") {
+			j := strings.Index(rest, "]")
+			tag := rest[1:j]
+			rest = strings.TrimSpace(rest[j+1:])
+			k := strings.LastIndex(tag, ":")
+			for _, p := range strings.Split(tag[:k], ",") {
+				me.Props = append(me.Props, strings.TrimSpace(p))
+			}
+			me.Label = strings.TrimSpace(tag[k+1:])
+		}
+		parts := strings.SplitN(rest, " then ", 2)
+		for _, part := range parts {
+			part = strings.TrimSpace(part)
+			var err error
+			switch {
+			case strings.HasPrefix(part, "grows "):
+				me.Grows, err = parseExpr(strings.TrimPrefix(part, "grows "))
+			case strings.HasPrefix(part, "shrinks "):
+				me.Shrinks, err = parseExpr(strings.TrimPrefix(part, "shrinks "))
+			default:
+				err = fmt.Errorf("measure: expected grows/shrinks")
+			}
+			if err != nil {
+				return err
+			}
+		}
+		fc.Measure = me
 	case "noloops":
 		fc.NoLoops = true
 	case "callsonly":
